@@ -103,6 +103,22 @@ def run(chk, repo):
            f"reader rebuilds [{sj!r}, {ej!r}) from writer offset {off!r} / length {ln!r} (anchor = first fragment start: {w0})",
            key='circ.io::offset-algebra', fn=rd.qual)
 
+    # the INTRON list the writer joins in order is the list the reader parsed, in file order (no set / sort in between)
+    from sa import sem as _sem13
+    mk = [c for c in ast.walk(rd.node) if isinstance(c, ast.Call) and call_name(c) == 'CircRNAModel']
+    iv = None
+    if len(mk) == 1:
+        ci_ = repo.func('circ.CircRNA:CircRNAModel.__init__')
+        ps_ = [a.arg for a in ci_.node.args.args][1:]
+        iv = kwarg(mk[0], 'intron') or (mk[0].args[ps_.index('intron')] if 'intron' in ps_ and ps_.index('intron') < len(mk[0].args) else None)
+    if iv is None:
+        chk.undecided('C13.a', 'circRNA reader: intron list', rd.where, 'the CircRNAModel(...) built by line_to_circ_model / its intron argument was not found', key='circ.io::intron-order', fn=rd.qual)
+    else:
+        e_iv = unparse(_sem13.expand_names(rd.node, repo.enclosing_stmt(mk[0]), iv))
+        chk.ob('C13.a', 'the intron indices reach the model as the parsed list (file order, duplicates kept)', repo.loc(rd, mk[0]), e_iv in ("attrs['INTRON']", "attrs.get('INTRON')"),
+               f"the reader hands `{e_iv}` to CircRNAModel as intron: the writer joins it in iteration order, so write -> parse -> write is no longer the identity "
+               "(hash order / lost duplicates)", key='circ.io::intron-order', fn=rd.qual)
+
     # ------------------------------------------------------------------ b
     chk.rule('C13.b', 'R-KEYS variant record writer/reader agreement', 5)
     ts = repo.func('seqvar.VariantRecord:VariantRecord.to_string')
@@ -370,6 +386,22 @@ def run(chk, repo):
     chk.rule('C13.e', 'R-DRAIN on the pointer generator; byte offsets', 6)
     ip = repo.func('seqvar.GVFIndex:iterate_pointer')
     chk.uses(ip)
+    # C13.j (E9): the key a pointer is filed under is the transcript_id of the record the SAME reader builds that a linear scan / a
+    # pointer load uses (line_to_variant_record / line_to_circ_model) - not a second, textual reading of the line
+    chk.rule('C13.j', 'R-SIBLING: pointer keys are record.transcript_id of the record parsed by the reader of the loader', 2)
+    chk.clauses.append('C13.j the key of a GVF pointer is the transcript_id of the record parsed from the line by the same reader the loader uses (no separate textual lookup of TRANSCRIPT_ID)')
+    from sa.peval import PEval as _PE2, show as _sh2
+    for flag, reader in ((True, 'line_to_circ_model'), (False, 'line_to_variant_record')):
+        try:
+            outs_ = _PE2(split_unknown=True, record=('GVFPointer',)).run(ip.node, {'is_circ_rna': flag})
+        except (ValueError, OverflowError) as e_:
+            chk.undecided('C13.j', f"pointer key (is_circ_rna={flag})", ip.where, f"iterate_pointer cannot be evaluated: {e_}", key=f"{ip.qual}::key::{flag}", fn=ip.qual)
+            continue
+        keys = sorted({_sh2(c['kwargs'].get('key', c['args'][1] if len(c['args']) > 1 else None)) for o in outs_ for c in o.calls if c['name'] == 'GVFPointer'})
+        ok = bool(keys) and all(re.fullmatch(r'(?:\w+\.)*' + reader + r'\(.*\)\.transcript_id', k) for k in keys)
+        chk.ob('C13.j', f"is_circ_rna={flag}: key == {reader}(line).transcript_id", ip.where, ok,
+               f"pointers are filed under {keys}: not the transcript_id of the record {reader}() parses from the line "
+               "(records reached through the index differ from a linear scan)", key=f"{ip.qual}::key::{flag}", fn=ip.qual)
     icfg = CFG(ip.node)
     loop = next((n for n in walk_no_nested(ip.node) if isinstance(n, ast.For)), None)
     after = ip.node.body[ip.node.body.index(loop) + 1:]
